@@ -251,3 +251,54 @@ Proof.
   destruct (layout_eqb a b) eqn:E; [|reflexivity].
   rewrite (layout_hash_eq hq hu hh hv hnone hint _ _ E), Z.eqb_refl. reflexivity.
 Qed.
+
+(* ---- equality = identity of normal forms (an independent characterisation: no recursion shared with the model) ---- *)
+Lemma size_eqb_norm : forall a b, size_eqb a b = true <-> norm_size a = norm_size b.
+Proof.
+  intros a b. rewrite size_eqb_iff. unfold size_equiv, norm_size. split.
+  - intros [H1 H2]. rewrite (Qred_complete _ _ H1), H2. reflexivity.
+  - intros H. pose proof (f_equal s_val H) as H1. pose proof (f_equal s_unit H) as H2. cbn [s_val s_unit] in H1, H2.
+    split; [|exact H2]. rewrite <- (Qred_correct (s_val a)), <- (Qred_correct (s_val b)), H1. reflexivity.
+Qed.
+
+Lemma point_eqb_norm : forall a b, point_eqb a b = true <-> norm_point a = norm_point b.
+Proof.
+  intros a b. unfold point_eqb, norm_point. rewrite andb_true_iff, !size_eqb_norm. split.
+  - intros [H1 H2]. rewrite H1, H2. reflexivity.
+  - intros H. split; [exact (f_equal p_x H)|exact (f_equal p_y H)].
+Qed.
+
+Lemma stretch_eqb_norm : forall a b, stretch_eqb a b = true <-> norm_stretch a = norm_stretch b.
+Proof.
+  intros a b. unfold stretch_eqb, norm_stretch. rewrite andb_true_iff, !size_eqb_norm. split.
+  - intros [H1 H2]. rewrite H1, H2. reflexivity.
+  - intros H. split; [exact (f_equal st_h H)|exact (f_equal st_v H)].
+Qed.
+
+Lemma padding_eqb_norm : forall a b, padding_eqb a b = true <-> norm_padding a = norm_padding b.
+Proof.
+  intros a b. unfold padding_eqb, norm_padding. rewrite !andb_true_iff, !size_eqb_norm. split.
+  - intros [[[H1 H2] H3] H4]. rewrite H1, H2, H3, H4. reflexivity.
+  - intros H. repeat split; [exact (f_equal pd_before H)|exact (f_equal pd_after H)|exact (f_equal pd_start H)|exact (f_equal pd_end H)].
+Qed.
+
+Lemma opt_eqb_map : forall {A} (f : A -> A -> bool) (n : A -> A), (forall x y, f x y = true <-> n x = n y) ->
+  forall a b, opt_eqb f a b = true <-> option_map n a = option_map n b.
+Proof.
+  intros A f n H [x|] [y|]; cbn [opt_eqb option_map]; split; intros E; try discriminate; try reflexivity.
+  - f_equal. apply H. exact E.
+  - inversion E. apply H. assumption.
+Qed.
+
+Theorem layout_eqb_norm : forall a b, layout_eqb a b = true <-> norm_layout a = norm_layout b.
+Proof.
+  intros a b. unfold layout_eqb, norm_layout. rewrite !andb_true_iff.
+  rewrite (opt_eqb_map _ _ point_eqb_norm), (opt_eqb_map _ _ stretch_eqb_norm), (opt_eqb_map _ _ padding_eqb_norm).
+  assert (A : opt_eqb alignment_eqb (l_alignment a) (l_alignment b) = true <-> l_alignment a = l_alignment b).
+  { destruct (l_alignment a) as [[h v]|], (l_alignment b) as [[h' v']|]; cbn [opt_eqb]; split; intros E; try discriminate; try reflexivity.
+    - apply alignment_eqb_iff in E. destruct E as [E1 E2]. cbn [al_h al_v] in *. subst. reflexivity.
+    - inversion E; subst. apply alignment_eqb_iff. split; reflexivity. }
+  rewrite A. split.
+  - intros [[[H1 H2] H3] H4]. rewrite H1, H2, H3, H4. reflexivity.
+  - intros H. repeat split; [exact (f_equal l_origin H)|exact (f_equal l_extent H)|exact (f_equal l_padding H)|exact (f_equal l_alignment H)].
+Qed.
